@@ -489,6 +489,11 @@ Definition e_decode_schema (v : uval) : uval := vopt (vopt vpairs) (decode_schem
 Definition e_decode_regdata (v : uval) : uval :=
   vopt (vopt (fun r => VL [vpairs (fst r); vopt (vlist (fun q => VL [vN (fst q); vdval (snd q)])) (snd r)]))
        (decode_regdata (getopt getpairs (arg 0 v)) (getbytes (arg 1 v))).
+(* the Coq layout of regulator data: [[id; code; value]...] -> [admissible; bytes] *)
+From PV Require Import Spec.C05r.
+Definition e_enc_regdata (v : uval) : uval :=
+  let l := map (fun q => mkRE (getN (arg 0 q)) (getN (arg 1 q)) (getdval (arg 2 q))) (getL v) in
+  VL [vbool (forallb entry_ok l); vbytes (enc_entries [] l)].
 Definition vdt (d : N * N * N * N * N * N) : uval := let '(y, mo, dd, h, mi, s) := d in VL [vN y; vN mo; vN dd; vN h; vN mi; vN s].
 Definition e_decode_alerts (v : uval) : uval :=
   vopt (fun r => VL [vN (fst r); vopt (vlist (fun a => VL [vN (a_code a); vdt (a_from a); vopt vdt (a_to a)])) (snd r)]) (decode_alerts (getbytes v)).
